@@ -135,6 +135,24 @@ fn planted(f: &mut dyn FnMut(G)) {
         f(G {
             stmts: vec![Stmt::Call { name: "cmd".into(), expr: word(vec![lit(":"), E::r("C")]) }, def("C", E::Alt(vec![lit("o"), E::r("C2")])), def("C2", body.clone())],
         });
+        // one definition referenced both as a word of its own and inside a word, either order
+        f(G { stmts: vec![Stmt::Call { name: "cmd".into(), expr: E::Alt(vec![E::r("C"), word(vec![lit(":"), E::r("C")])]) }, def("C", body.clone())] });
+        f(G { stmts: vec![Stmt::Call { name: "cmd".into(), expr: E::Alt(vec![word(vec![lit(":"), E::r("C")]), E::r("C")]) }, def("C", body.clone())] });
+        f(G {
+            stmts: vec![
+                Stmt::Call { name: "cmd".into(), expr: E::Seq(vec![lit("run"), E::r("C")]) },
+                Stmt::Call { name: "cmd".into(), expr: E::Seq(vec![lit("exec"), word(vec![lit("--do="), E::r("C")])]) },
+                def("C", body.clone()),
+            ],
+        });
+        f(G { stmts: vec![Stmt::Call { name: "cmd".into(), expr: E::Seq(vec![E::Many(Box::new(E::Opt(Box::new(E::r("C"))))), word(vec![lit("--set="), E::r("C")])]) }, def("C", body.clone())] });
+        f(G {
+            stmts: vec![
+                Stmt::Call { name: "cmd".into(), expr: E::Seq(vec![E::r("P"), word(vec![lit("k="), E::r("P")])]) },
+                def("P", E::Alt(vec![lit("o"), E::r("C")])),
+                def("C", body.clone()),
+            ],
+        });
         // the same definition used only outside a word is fine
         f(G { stmts: vec![Stmt::Call { name: "cmd".into(), expr: E::Seq(vec![lit(":"), E::r("C")]) }, def("C", body.clone())] });
     }
@@ -303,6 +321,9 @@ pub fn run(tier: Tier) -> Report {
                 push((g, true));
             }
             crate::fam::with_defs(km, k1, k2, &mut |g| push((g, false)));
+            for n in 2..=5 {
+                crate::fam::def_dags(n, &mut |g| push((g, false)));
+            }
             crate::fam::single_call(crate::fam::v0(), k, &mut |g| push((g, false)));
         },
         || Acc { samples: Some(Samples::new(3)), ..Default::default() },
